@@ -320,10 +320,13 @@ theorem split_render_aux (w : Bytes) : render (splitBraces w).1 = w := by
     generalize scan { top := [], stack := [] } Mode.normal [] w = res at h
     obtain ⟨st, pend⟩ := res
     simp only at h ⊢
-    rw [render_unwind]
-    have := renderSt_add st (.lit pend)
-    simp only [renderSt, renderPart_lit] at this h
-    simp [this, h]
+    split
+    · simp only
+      rw [render_unwind]
+      have := renderSt_flush st pend
+      simp only [renderSt] at this h
+      simp [this, h]
+    · simp
 
 /-! ## `seq_exact` -/
 
@@ -337,143 +340,101 @@ theorem arith_take (a d : Int) (n k : Nat) : (arith a d n).take k = arith a d (m
       have : min (k + 1) (n + 1) = min k n + 1 := by omega
       simp [arith, ih, this]
 
-theorem seqVals_stop (sp : SeqParams) (k : Nat) (n : Int) (h : seqCond sp n = false) :
-    seqVals sp k n = [] := by
-  cases k <;> simp [seqVals, h]
-
-theorem seqVals_up (sp : SeqParams) (s : Nat) (hs : 0 < s) (hup : sp.upward = true)
-    (hincr : sp.incr = (s : Int)) :
-    ∀ (k d : Nat) (n : Int), n = sp.to - d → sp.to - ((d % s : Nat) : Int) + s ≤ maxI64 →
-      minI64 ≤ n → seqVals sp k n = arith n s (min k (d / s + 1)) := by
-  intro k
-  induction k with
-  | zero => intro d n _ _ _; simp [seqVals, arith]
-  | succ k ih =>
-    intro d n hn hov hmin
-    have hcond : seqCond sp n = true := by
-      simp only [seqCond, hup]; simp; omega
-    have hmod : d % s ≤ d := Nat.mod_le d s
-    have hwrap : wrap64 (n + sp.incr) = n + s := by
-      simp only [wrap64, hincr, maxI64, minI64] at *
-      split
-      · omega
-      · split
-        · omega
-        · rfl
-    simp only [seqVals, hcond, if_true, hwrap]
-    by_cases hds : s ≤ d
-    · obtain ⟨d', rfl⟩ : ∃ d', d = d' + s := ⟨d - s, by omega⟩
-      have h1 : (d' + s) % s = d' % s := Nat.add_mod_right d' s
-      have h2 : (d' + s) / s = d' / s + 1 := Nat.add_div_right d' hs
-      rw [h1] at hov
-      have := ih d' (n + s) (by push_cast at hn ⊢; omega) hov (by omega)
-      rw [this, h2]
-      have : min (k + 1) (d' / s + 1 + 1) = min k (d' / s + 1) + 1 := by omega
-      rw [this]; simp [arith]
-    · have h2 : d / s = 0 := Nat.div_eq_of_lt (by omega)
-      have hstop : seqCond sp (n + s) = false := by
-        simp only [seqCond, hup]; simp; omega
-      rw [seqVals_stop _ _ _ hstop, h2]
-      have : min (k + 1) (0 + 1) = 1 := by omega
-      rw [this]; simp [arith]
-
-theorem seqVals_down (sp : SeqParams) (s : Nat) (hs : 0 < s) (hup : sp.upward = false)
-    (hincr : sp.incr = -(s : Int)) :
-    ∀ (k d : Nat) (n : Int), n = sp.to + d → minI64 ≤ sp.to + ((d % s : Nat) : Int) - s →
-      n ≤ maxI64 → seqVals sp k n = arith n (-(s : Int)) (min k (d / s + 1)) := by
-  intro k
-  induction k with
-  | zero => intro d n _ _ _; simp [seqVals, arith]
-  | succ k ih =>
-    intro d n hn hov hmax
-    have hcond : seqCond sp n = true := by
-      simp only [seqCond, hup]; simp; omega
-    have hmod : d % s ≤ d := Nat.mod_le d s
-    have hwrap : wrap64 (n + sp.incr) = n + -(s : Int) := by
-      simp only [wrap64, hincr, maxI64, minI64] at *
-      split
-      · omega
-      · split
-        · omega
-        · rfl
-    simp only [seqVals, hcond, if_true, hwrap]
-    by_cases hds : s ≤ d
-    · obtain ⟨d', rfl⟩ : ∃ d', d = d' + s := ⟨d - s, by omega⟩
-      have h1 : (d' + s) % s = d' % s := Nat.add_mod_right d' s
-      have h2 : (d' + s) / s = d' / s + 1 := Nat.add_div_right d' hs
-      rw [h1] at hov
-      have := ih d' (n + -(s : Int)) (by push_cast at hn ⊢; omega) hov (by omega)
-      rw [this, h2]
-      have : min (k + 1) (d' / s + 1 + 1) = min k (d' / s + 1) + 1 := by omega
-      rw [this]; simp [arith]
-    · have h2 : d / s = 0 := Nat.div_eq_of_lt (by omega)
-      have hstop : seqCond sp (n + -(s : Int)) = false := by
-        simp only [seqCond, hup]; simp; omega
-      rw [seqVals_stop _ _ _ hstop, h2]
-      have : min (k + 1) (0 + 1) = 1 := by omega
-      rw [this]; simp [arith]
-
-theorem wrap64_id (x : Int) (h1 : minI64 ≤ x) (h2 : x ≤ maxI64) : wrap64 x = x := by
-  unfold wrap64
-  rw [if_neg (by omega), if_neg (by omega)]
-
 theorem idealStep_pos (inc : Int) : 0 < idealStep inc := by
   unfold idealStep; split <;> omega
 
-theorem goIncr_up (inc : Int) (h1 : minI64 < inc) (h2 : inc ≤ maxI64) :
-    goIncr inc true = (idealStep inc : Int) := by
-  simp only [goIncr, idealStep, wrap64, maxI64, minI64] at *
+theorem goStep_eq (inc : Int) (h1 : minI64 ≤ inc) (h2 : inc ≤ maxI64) :
+    goStep inc = idealStep inc := by
+  simp only [goStep, idealStep, u64, minI64, maxI64] at *
   by_cases hneg : inc < 0
-  · simp only [hneg, if_true]
-    have : ¬ (-inc > 9223372036854775807) := by omega
-    have h' : ¬ (-inc < -9223372036854775808) := by omega
-    simp only [this, h', if_false]
-    have : -inc ≠ 0 := by omega
-    have hi : inc ≠ 0 := by omega
-    simp [this, hi]; omega
+  · have h0 : inc ≠ 0 := by omega
+    simp only [hneg, if_true, h0, if_false]
+    omega
   · simp only [hneg, if_false]
-    by_cases h0 : inc = 0
-    · simp [h0]
-    · simp [h0]; omega
+    by_cases hpos : inc > 0
+    · have h0 : inc ≠ 0 := by omega
+      simp only [hpos, if_true, h0, if_false]
+      omega
+    · have h0 : inc = 0 := by omega
+      simp [h0]
 
-theorem goIncr_down (inc : Int) (h1 : minI64 < inc) (h2 : inc ≤ maxI64) :
-    goIncr inc false = -(idealStep inc : Int) := by
-  have hup := goIncr_up inc h1 h2
-  have hpos := idealStep_pos inc
-  have hle : (idealStep inc : Int) ≤ maxI64 := by
-    simp only [idealStep, maxI64, minI64] at *; split <;> omega
-  simp only [goIncr] at hup ⊢
-  simp only [Bool.not_true, Bool.false_eq_true, if_false] at hup
-  simp only [Bool.not_false, if_true]
-  rw [hup]
-  apply wrap64_id
-  · simp only [maxI64, minI64] at *; omega
-  · simp only [maxI64, minI64] at *; omega
+theorem seqVals_up (sp : SeqParams) (hup : sp.upward = true) (hs : 0 < sp.step)
+    (hto : sp.to ≤ maxI64) :
+    ∀ (k d : Nat) (n : Int), n = sp.to - d → minI64 ≤ n →
+      seqVals sp k n = arith n sp.step (min k (d / sp.step + 1)) := by
+  intro k
+  induction k with
+  | zero => intro d n _ _; simp [seqVals, arith]
+  | succ k ih =>
+    intro d n hn hmin
+    have hrem : u64 (u64 sp.to - u64 n) = (d : Int) := by
+      simp only [u64, minI64, maxI64] at *; omega
+    simp only [seqVals, hup, if_true, hrem]
+    by_cases hds : sp.step ≤ d
+    · have hlt : ¬ ((d : Int) < (sp.step : Int)) := by omega
+      rw [if_neg hlt]
+      obtain ⟨d', hd'⟩ : ∃ d', d = d' + sp.step := ⟨d - sp.step, by omega⟩
+      have hnext : i64 (u64 n + sp.step) = n + sp.step := by
+        simp only [u64, i64, minI64, maxI64] at *; omega
+      have h2 : (d' + sp.step) / sp.step = d' / sp.step + 1 := Nat.add_div_right d' hs
+      rw [hnext, ih d' (n + sp.step) (by omega) (by omega), hd', h2]
+      have : min (k + 1) (d' / sp.step + 1 + 1) = min k (d' / sp.step + 1) + 1 := by omega
+      rw [this]; simp [arith]
+    · have hlt : (d : Int) < (sp.step : Int) := by omega
+      rw [if_pos hlt]
+      have h2 : d / sp.step = 0 := Nat.div_eq_of_lt (by omega)
+      rw [h2]
+      have : min (k + 1) (0 + 1) = 1 := by omega
+      rw [this]; simp [arith]
+
+theorem seqVals_down (sp : SeqParams) (hup : sp.upward = false) (hs : 0 < sp.step)
+    (hto : minI64 ≤ sp.to) :
+    ∀ (k d : Nat) (n : Int), n = sp.to + d → n ≤ maxI64 →
+      seqVals sp k n = arith n (-(sp.step : Int)) (min k (d / sp.step + 1)) := by
+  intro k
+  induction k with
+  | zero => intro d n _ _; simp [seqVals, arith]
+  | succ k ih =>
+    intro d n hn hmax
+    have hrem : u64 (u64 n - u64 sp.to) = (d : Int) := by
+      simp only [u64, minI64, maxI64] at *; omega
+    simp only [seqVals, hup, Bool.false_eq_true, if_false, hrem]
+    by_cases hds : sp.step ≤ d
+    · have hlt : ¬ ((d : Int) < (sp.step : Int)) := by omega
+      rw [if_neg hlt]
+      obtain ⟨d', hd'⟩ : ∃ d', d = d' + sp.step := ⟨d - sp.step, by omega⟩
+      have hnext : i64 (u64 n - sp.step) = n + -(sp.step : Int) := by
+        simp only [u64, i64, minI64, maxI64] at *; omega
+      have h2 : (d' + sp.step) / sp.step = d' / sp.step + 1 := Nat.add_div_right d' hs
+      rw [hnext, ih d' (n + -(sp.step : Int)) (by omega) (by omega), hd', h2]
+      have : min (k + 1) (d' / sp.step + 1 + 1) = min k (d' / sp.step + 1) + 1 := by omega
+      rw [this]; simp [arith]
+    · have hlt : (d : Int) < (sp.step : Int) := by omega
+      rw [if_pos hlt]
+      have h2 : d / sp.step = 0 := Nat.div_eq_of_lt (by omega)
+      rw [h2]
+      have : min (k + 1) (0 + 1) = 1 := by omega
+      rw [this]; simp [arith]
 
 theorem seq_exact_core (sp : SeqParams) (fr to inc : Int)
-    (hfr1 : minI64 ≤ fr) (hfr2 : fr ≤ maxI64)
-    (hinc1 : minI64 < inc) (hinc2 : inc ≤ maxI64)
-    (hto : sp.to = to) (hup : sp.upward = decide (fr ≤ to)) (hincr : sp.incr = goIncr inc sp.upward)
-    (hno : SeqNoOverflow fr to (idealStep inc)) (k : Nat) :
+    (hfr1 : minI64 ≤ fr) (hfr2 : fr ≤ maxI64) (hto1 : minI64 ≤ to) (hto2 : to ≤ maxI64)
+    (hinc1 : minI64 ≤ inc) (hinc2 : inc ≤ maxI64)
+    (hto : sp.to = to) (hup : sp.upward = decide (fr ≤ to)) (hstep : sp.step = goStep inc)
+    (k : Nat) :
     seqVals sp k fr = (idealSeq fr to (idealStep inc)).take k := by
   have hs := idealStep_pos inc
+  rw [goStep_eq inc hinc1 hinc2] at hstep
   unfold idealSeq
-  rw [arith_take]
-  unfold SeqNoOverflow at hno
+  rw [arith_take, ← hstep]
   by_cases hle : fr ≤ to
-  · simp only [hle, if_true] at hno ⊢
+  · simp only [hle, if_true]
     have hup' : sp.upward = true := by simp [hup, hle]
-    rw [hup', goIncr_up inc hinc1 hinc2] at hincr
-    have := seqVals_up sp (idealStep inc) hs hup' hincr k (to - fr).natAbs fr
-      (by rw [hto]; omega) (by rw [hto]; exact hno) hfr1
-    rw [this]
-  · simp only [hle, if_false] at hno ⊢
+    exact seqVals_up sp hup' (by omega) (by omega) k (to - fr).natAbs fr (by omega) hfr1
+  · simp only [hle, if_false]
     have hup' : sp.upward = false := by simp [hup, hle]
-    rw [hup', goIncr_down inc hinc1 hinc2] at hincr
     have habs : (to - fr).natAbs = (fr - to).natAbs := by omega
-    have := seqVals_down sp (idealStep inc) hs hup' hincr k (fr - to).natAbs fr
-      (by rw [hto]; omega) (by rw [hto]; exact hno) hfr2
-    rw [this, habs]
+    rw [habs]
+    exact seqVals_down sp hup' (by omega) (by omega) k (fr - to).natAbs fr (by omega) hfr2
 
 /-! ## Well-formedness of the output of `SplitBraces` -/
 
@@ -681,8 +642,10 @@ theorem wf_split (w : Bytes) : wf (splitBraces w).1 = true := by
     generalize scan { top := [], stack := [] } Mode.normal [] w = res at h
     obtain ⟨st, pend⟩ := res
     simp only at h ⊢
-    have h2 := stWf_add st (.lit pend) h (by simp)
-    exact wf_unwind _ _ _ h2.1 h2.2 (by simp)
+    have h2 := stWf_flush st pend h
+    split
+    · exact wf_unwind _ _ _ h2.1 h2.2 (by simp)
+    · simp
 
 /-! ## `bracesSeqRec`: shape lemmas -/
 
@@ -959,31 +922,7 @@ theorem denotElems_length : ∀ es : List (List Part), (denotElems es).length = 
   | e :: es => by simp [countElems, denot_length e, denotElems_length es]
 end
 
-/-! ## `bracesSeqRec` refines the denotation (no overflow) -/
-
-@[simp] theorem noOv_nil : noOv [] = true := by simp [noOv]
-@[simp] theorem noOv_cons (p : Part) (ps : List Part) : noOv (p :: ps) = (noOvPart p && noOv ps) := by
-  simp [noOv]
-@[simp] theorem noOvPart_lit (v : Bytes) : noOvPart (.lit v) = true := by simp [noOvPart]
-@[simp] theorem noOvElems_nil : noOvElems [] = true := by simp [noOvElems]
-@[simp] theorem noOvElems_cons (e : List Part) (es : List (List Part)) :
-    noOvElems (e :: es) = (noOv e && noOvElems es) := by simp [noOvElems]
-
-theorem noOv_append (a b : List Part) : noOv (a ++ b) = (noOv a && noOv b) := by
-  induction a with
-  | nil => simp
-  | cons p ps ih => simp [ih, Bool.and_assoc]
-
-theorem noOv_of_mem_elems (elems : List Word) (e : Word) (h : e ∈ elems)
-    (hw : noOvElems elems = true) : noOv e = true := by
-  induction elems with
-  | nil => cases h
-  | cons x xs ih =>
-    simp only [noOvElems_cons, Bool.and_eq_true] at hw
-    simp only [List.mem_cons] at h
-    rcases h with rfl | h
-    · exact hw.1
-    · exact ih h hw.2
+/-! ## `bracesSeqRec` refines the denotation -/
 
 theorem parseDigits_in64 (neg : Bool) (ds : Bytes) :
     minI64 ≤ (parseDigits neg ds).1 ∧ (parseDigits neg ds).1 ≤ maxI64 := by
@@ -1021,8 +960,8 @@ theorem seqRaw_in64 (elems : List Word) : minI64 ≤ seqRaw elems ∧ seqRaw ele
   · simp [minI64, maxI64]
 
 theorem seqParams_facts (elems : List Word) (sp : SeqParams) (h : seqParams elems = some sp) :
-    sp.upward = decide (sp.from ≤ sp.to) ∧ sp.incr = goIncr (seqRaw elems) sp.upward ∧
-    minI64 ≤ sp.from ∧ sp.from ≤ maxI64 := by
+    sp.upward = decide (sp.from ≤ sp.to) ∧ sp.step = goStep (seqRaw elems) ∧
+    minI64 ≤ sp.from ∧ sp.from ≤ maxI64 ∧ minI64 ≤ sp.to ∧ sp.to ≤ maxI64 := by
   unfold seqParams at h
   match elems, h with
   | e0 :: e1 :: more, h =>
@@ -1036,13 +975,14 @@ theorem seqParams_facts (elems : List Word) (sp : SeqParams) (h : seqParams elem
       simp only
       split at hends
       · simp only [Option.some.injEq, Prod.mk.injEq] at hends
-        obtain ⟨_, h1, _⟩ := hends
-        rw [← h1]; exact parseInt_in64 _
+        obtain ⟨_, h1, h2⟩ := hends
+        rw [← h1, ← h2]
+        exact ⟨(parseInt_in64 _).1, (parseInt_in64 _).2, (parseInt_in64 _).1, (parseInt_in64 _).2⟩
       · split at hends
         · simp only [Option.some.injEq, Prod.mk.injEq] at hends
-          obtain ⟨_, h1, _⟩ := hends
-          rw [← h1]
-          exact byte_in64 _
+          obtain ⟨_, h1, h2⟩ := hends
+          rw [← h1, ← h2]
+          exact ⟨(byte_in64 _).1, (byte_in64 _).2, (byte_in64 _).1, (byte_in64 _).2⟩
         · simp at hends
 
 theorem flatMap_take_take {α β : Type} (g : α → List β) (hg : ∀ x, g x ≠ []) :
@@ -1140,14 +1080,14 @@ theorem flatMap_denot_elems (elems : List Word) (rest : List Part) :
   | nil => simp
   | cons e es ihe => simp [denot_append, cross_append_left, ← ihe]
 
-theorem bracesRec_spec : ∀ (fuel budget : Nat) (w : Word), wf w = true → noOv w = true →
+theorem bracesRec_spec : ∀ (fuel budget : Nat) (w : Word), wf w = true →
     bracesIn w < fuel → 0 < budget →
     ∃ r, bracesRec fuel budget w = some r ∧ r.map render = (denot w).take budget := by
   intro fuel
   induction fuel with
-  | zero => intro _ _ _ _ h; omega
+  | zero => intro _ _ _ h; omega
   | succ fuel ih =>
-    intro budget w hw hno hfuel hbud
+    intro budget w hw hfuel hbud
     simp only [bracesRec]
     cases hsp : splitAtBrace w with
     | mk left o =>
@@ -1166,13 +1106,9 @@ theorem bracesRec_spec : ∀ (fuel budget : Nat) (w : Word), wf w = true → noO
         subst hweq
         simp only [wf_append, wf_cons, Bool.and_eq_true] at hw
         obtain ⟨_, hbr, hrest⟩ := hw
-        simp only [noOv_append, noOv_cons, Bool.and_eq_true] at hno
-        obtain ⟨_, hnobr, hnorest⟩ := hno
         simp only [bracesIn_append, bracesIn_cons, bracesInPart_brace] at hfuel
         simp only [wfPart, Bool.and_eq_true] at hbr
         obtain ⟨hshape, helems⟩ := hbr
-        simp only [noOvPart, Bool.and_eq_true] at hnobr
-        obtain ⟨hnoseq, hnoelems⟩ := hnobr
         have hden : denot (left ++ Part.brace seq elems :: rest) =
             (cross (denotPart (.brace seq elems)) (denot rest)).map (render left ++ ·) := by
           rw [denot_append, denot_allLit left hleft, cross_single_left, denot_cons]
@@ -1184,7 +1120,6 @@ theorem bracesRec_spec : ∀ (fuel budget : Nat) (w : Word), wf w = true → noO
             intro e he b hb
             apply ih
             · simp [wf_append, wf_of_mem_elems elems e he helems, hrest]
-            · simp [noOv_append, noOv_of_mem_elems elems e he hnoelems, hnorest]
             · have := bracesIn_le_elems elems e he
               simp only [bracesIn_append]; omega
             · exact hb) budget
@@ -1196,14 +1131,13 @@ theorem bracesRec_spec : ∀ (fuel budget : Nat) (w : Word), wf w = true → noO
           simp only [denotPart, Bool.false_eq_true, if_false]
           exact flatMap_denot_elems elems rest
         | true =>
-          simp only [if_true] at hshape hnoseq ⊢
+          simp only [if_true] at hshape ⊢
           obtain ⟨sp, hsp'⟩ := seqParams_of_valid elems hshape
           simp only [hsp']
-          obtain ⟨hup, hincr, hf1, hf2⟩ := seqParams_facts elems sp hsp'
+          obtain ⟨hup, hstep, hf1, hf2, ht1, ht2⟩ := seqParams_facts elems sp hsp'
           have hraw := seqRaw_in64 elems
-          simp only [seqNoOv, hsp', decide_eq_true_eq] at hnoseq
-          have hvals := seq_exact_core sp sp.from sp.to (seqRaw elems) hf1 hf2
-            (by have := hnoseq.1; omega) hraw.2 rfl hup hincr hnoseq.2 budget
+          have hvals := seq_exact_core sp sp.from sp.to (seqRaw elems) hf1 hf2 ht1 ht2
+            hraw.1 hraw.2 rfl hup hstep budget
           obtain ⟨r, hr, hrr⟩ := altLoop_spec (bracesRec fuel) rest
             ((seqVals sp budget sp.from).map fun n => [Part.lit (fmtSeq sp n)]) (by
             intro e he b hb
@@ -1211,7 +1145,6 @@ theorem bracesRec_spec : ∀ (fuel budget : Nat) (w : Word), wf w = true → noO
             obtain ⟨n, _, rfl⟩ := he
             apply ih
             · simp [hrest]
-            · simp [hnorest]
             · simp; omega
             · exact hb) budget
           refine ⟨r.map (left ++ ·), by simp [hr], ?_⟩
@@ -1228,88 +1161,5 @@ theorem bracesRec_spec : ∀ (fuel budget : Nat) (w : Word), wf w = true → noO
           congr 1
           simp only [denotPart, if_true, seqTexts, hsp', cross, List.flatMap_map]
           simp [cross]
-
-/-! ## The overflow witness runs into the limit -/
-
-theorem seqVals_succ (sp : SeqParams) (k : Nat) (n : Int) :
-    seqVals sp (k + 1) n =
-      if seqCond sp n then n :: seqVals sp k (wrap64 (n + sp.incr)) else [] := by
-  simp [seqVals]
-
-theorem seqVals_length_up1 (sp : SeqParams) (hup : sp.upward = true) (hincr : sp.incr = 1)
-    (hto : sp.to ≤ maxI64) :
-    ∀ (k : Nat) (n : Int), n + k ≤ sp.to + 1 → minI64 ≤ n → (seqVals sp k n).length = k := by
-  intro k
-  induction k with
-  | zero => intro n _ _; simp [seqVals]
-  | succ k ih =>
-    intro n hn hmin
-    have hcond : seqCond sp n = true := by
-      simp only [seqCond, hup]; simp; omega
-    simp only [seqVals, hcond, if_true, List.length_cons]
-    cases k with
-    | zero => simp [seqVals]
-    | succ k' =>
-      have hw : wrap64 (n + sp.incr) = n + 1 := by
-        rw [hincr]; apply wrap64_id <;> omega
-      rw [hw, ih (n + 1) (by omega) (by omega)]
-
-theorem seqVals_overflow_len (sp : SeqParams) (hup : sp.upward = true) (hincr : sp.incr = 1)
-    (hto : sp.to = maxI64) (k : Nat) (hk : (k : Int) ≤ 1000000) :
-    (seqVals sp (k + 2) (maxI64 - 1)).length = k + 2 := by
-  have c1 : seqCond sp (maxI64 - 1) = true := by
-    simp only [seqCond, hup, hto]; simp; omega
-  have w1 : wrap64 (maxI64 - 1 + sp.incr) = maxI64 := by
-    rw [hincr]; simp [wrap64, maxI64, minI64]
-  have c2 : seqCond sp maxI64 = true := by
-    simp only [seqCond, hup, hto]; simp
-  have w2 : wrap64 (maxI64 + sp.incr) = minI64 := by
-    rw [hincr]; simp [wrap64, maxI64, minI64]
-  rw [seqVals_succ, if_pos c1, w1, seqVals_succ, if_pos c2, w2]
-  simp only [List.length_cons]
-  rw [seqVals_length_up1 sp hup hincr (by rw [hto]; exact Int.le_refl _) k minI64
-    (by rw [hto]; simp only [maxI64, minI64]; omega) (Int.le_refl _)]
-
-theorem altLoop_singletons (f : Nat → Word → Option (List Word)) (rest : List Part)
-    (alts : List Word) (hf : ∀ e ∈ alts, ∀ b, f b (e ++ rest) = some [e ++ rest]) :
-    ∀ budget, alts.length ≤ budget →
-      altLoop f rest alts budget = some (alts.map (· ++ rest)) := by
-  induction alts with
-  | nil => intro b _; simp [altLoop]
-  | cons e es ih =>
-    intro b hb
-    simp only [List.length_cons] at hb
-    simp only [altLoop]
-    rw [if_neg (by omega), hf e (by simp) b]
-    simp only [List.length_cons, List.length_nil]
-    rw [ih (fun e' he' => hf e' (by simp [he'])) (b - (0 + 1)) (by omega)]
-    simp
-
-/-- A word that is exactly one sequence followed by a literal: if the Go loop produces more than
-    `limit` values, `BracesSeq` ends in the limit error. -/
-theorem expand_single_seq_limit (elems : List Word) (v : Bytes) (sp : SeqParams)
-    (hsp : seqParams elems = some sp)
-    (hlen : (seqVals sp (limit + 1) sp.from).length = limit + 1) :
-    isLimitErr (expand [.brace true elems, .lit v]) = true := by
-  have hb : ∀ (F b : Nat) (t : Bytes), bracesRec (F + 1) b ([Part.lit t] ++ [Part.lit v]) =
-      some [[Part.lit t] ++ [Part.lit v]] := by
-    intro F b t; simp [bracesRec, splitAtBrace]
-  have hal := altLoop_singletons (bracesRec (bracesInElems elems + 1)) [.lit v]
-    ((seqVals sp (limit + 1) sp.from).map fun n => [Part.lit (fmtSeq sp n)]) (by
-      intro e he b
-      simp only [List.mem_map] at he
-      obtain ⟨n, _, rfl⟩ := he
-      exact hb _ b _) (limit + 1) (by simp [hlen])
-  have hfuel : bracesIn [Part.brace true elems, Part.lit v] + 1 = bracesInElems elems + 1 + 1 := by
-    simp; omega
-  have h1 : bracesRec (bracesInElems elems + 1 + 1) (limit + 1) [Part.brace true elems, Part.lit v] =
-      some (((seqVals sp (limit + 1) sp.from).map fun n => [Part.lit (fmtSeq sp n)]).map
-        (· ++ [Part.lit v])) := by
-    rw [bracesRec]
-    simp only [splitAtBrace, if_true, hsp, hal]
-    simp
-  unfold expand bracesSeq
-  rw [hfuel, h1]
-  simp [hlen, isLimitErr]
 
 end ShVerif.C16
